@@ -136,14 +136,20 @@ def _shards(items, n):
     n = max(1, min(n, len(items)))
     return [items[i::n] for i in range(n)]
 
-def run_harness(cases, timeout=120, shards=NPROC):
-    """returns {id: {result, msg, stdout(bytes), stderr(bytes), pulled, stdin_opened, budget_hit}};
-    a shard that hangs or dies is re-run case by case to pin the culprit (result 'hang' / 'abort')."""
+def run_harness(cases, timeout=40, shards=NPROC, max_hangs=3):
+    """returns {id: {result, msg, stdout(bytes), stderr(bytes), pulled, stdin_opened, budget_hit}}.
+    The harness works through its cases in order, one result line per case.  When a shard hangs or dies, the first
+    case without a result is the suspect: it is re-run alone (result 'hang' / 'abort' when it fails again) and the
+    rest of the shard is run again; shards recover in parallel.  After `max_hangs` confirmed hangs/aborts in one call
+    the remaining cases are reported 'not-run' (the check has its failing input; a change that hangs on many inputs
+    must not make the check itself run for an hour)."""
+    import threading
     tmp = os.path.join(BUILD, 'tmp'); os.makedirs(tmp, exist_ok=True)
-    timeout = max(timeout, 60 + len(cases) // max(1, shards) // 20)
-    out = {}
-    def launch(cs, k):
-        d = os.path.join(tmp, 'h%d_%d' % (os.getpid(), k)); os.makedirs(d, exist_ok=True)
+    per = len(cases) // max(1, min(shards, max(1, len(cases)))) + 1
+    t0 = max(timeout, 20 + per // 20)
+    out = {}; lock = threading.Lock(); confirmed = [0]
+    def launch(cs, tag):
+        d = os.path.join(tmp, 'h%d_%s' % (os.getpid(), tag)); os.makedirs(d, exist_ok=True)
         for c in cs: c['_tmp'] = d
         p = subprocess.Popen([HARNESS_BIN, d], stdin=subprocess.PIPE, stdout=subprocess.PIPE, stderr=subprocess.DEVNULL)
         return p, d
@@ -161,39 +167,38 @@ def run_harness(cases, timeout=120, shards=NPROC):
             res[r['id']] = r
         shutil.rmtree(d, ignore_errors=True)
         return res, st
-    groups = _shards(cases, shards)
-    procs = [launch(g, k) for k, g in enumerate(groups)]
-    import threading
-    results = [None] * len(groups)
-    def work(i):
-        results[i] = collect(procs[i][0], groups[i], procs[i][1], timeout)
-    ths = [threading.Thread(target=work, args=(i,)) for i in range(len(groups))]
-    for t in ths: t.start()
-    for t in ths: t.join()
-    for i, g in enumerate(groups):
-        res, st = results[i]
-        out.update(res)
-        missing = [c for c in g if c['id'] not in res]
+    def blank(c, result, msg):
+        return {'id': c['id'], 'result': result, 'msg': msg, 'stdout': b'', 'stderr': b'', 'pulled': 0, 'stdin_opened': 0, 'budget_hit': False}
+    def work(k, g):
+        p, d = launch(g, '%d' % k)
+        res, st = collect(p, g, d, t0)
+        mine = dict(res)
+        missing = [c for c in g if c['id'] not in mine]
         rounds = 0
-        while missing and rounds < 6:
-            # the harness works through its cases in order: the first one without a result is the suspect
+        while missing and rounds < 8:
+            with lock:
+                if confirmed[0] >= max_hangs: break
             rounds += 1
             c = missing[0]
-            p, d = launch([c], 1000 + i)
+            p, d = launch([c], '%d_s%d' % (k, rounds))
             r1, st1 = collect(p, [c], d, 8)
-            if c['id'] in r1: out[c['id']] = r1[c['id']]
+            if c['id'] in r1: mine[c['id']] = r1[c['id']]
             else:
-                out[c['id']] = {'id': c['id'], 'result': 'hang' if st1 == 'hang' else 'abort', 'msg': str(st1),
-                                'stdout': b'', 'stderr': b'', 'pulled': 0, 'stdin_opened': 0, 'budget_hit': False}
+                mine[c['id']] = blank(c, 'hang' if st1 == 'hang' else 'abort', str(st1))
+                with lock: confirmed[0] += 1
             rest = missing[1:]
             if rest:
-                p, d = launch(rest, 2000 + i)
-                r2, st2 = collect(p, rest, d, max(20, timeout // 4))
-                out.update(r2)
-            missing = [c for c in rest if c['id'] not in out]
-        for c in missing:      # not run: earlier cases of the shard kept hanging
-            out[c['id']] = {'id': c['id'], 'result': 'not-run', 'msg': 'shard abandoned after repeated hangs', 'stdout': b'', 'stderr': b'',
-                            'pulled': 0, 'stdin_opened': 0, 'budget_hit': False}
+                p, d = launch(rest, '%d_r%d' % (k, rounds))
+                r2, st2 = collect(p, rest, d, max(15, 10 + len(rest) // 20))
+                mine.update(r2)
+            missing = [c for c in rest if c['id'] not in mine]
+        for c in missing:
+            mine[c['id']] = blank(c, 'not-run', 'not run: earlier cases of this call already hung or aborted')
+        with lock: out.update(mine)
+    groups = _shards(cases, shards)
+    ths = [threading.Thread(target=work, args=(k, g)) for k, g in enumerate(groups)]
+    for t in ths: t.start()
+    for t in ths: t.join()
     return out
 
 def run_model(cases, timeout=120, shards=NPROC):
@@ -257,7 +262,32 @@ def build_jawk_bin():
     return os.path.exists(JAWK_BIN) and 'could not compile' not in out, out
 
 def gen_tables():
-    return sh('python3 %s/extractor/gen_tables.py /repo/src %s/Gen' % (VERIF, COQ))
+    """regenerate coq/Gen/*.v from /repo/src; tables whose shape the translator does not recognise in the source are
+    determined from the behaviour of the code built from /repo (vp/probe.py) and written as PROBED"""
+    import probe
+    base = 'python3 %s/extractor/gen_tables.py /repo/src %s/Gen' % (VERIF, COQ)
+    cp = probe.cache_path()
+    rc, out = sh(base + (' --probed=%s' % cp if os.path.exists(cp) else ''))
+    if rc != 0: return rc, out
+    unrec = [t for t, st in tables_status().items() if st == 'unrecognised']
+    if unrec:
+        have, cp = probe.run(unrec)
+        rc, out = sh(base + ' --probed=%s' % cp)
+    return rc, out
+
+def tables_status():
+    try: return json.load(open(os.path.join(COQ, 'Gen', 'tables_status.json')))['status']
+    except Exception: return {}
+
+class build_lock:
+    """one check at a time regenerates tables and builds (.vo files and Gen/ are shared between checks)"""
+    def __enter__(self):
+        import fcntl
+        os.makedirs(BUILD, exist_ok=True)
+        self.f = open(os.path.join(BUILD, 'build.lock'), 'w'); fcntl.flock(self.f, fcntl.LOCK_EX); return self
+    def __exit__(self, *a):
+        import fcntl
+        fcntl.flock(self.f, fcntl.LOCK_UN); self.f.close()
 
 def coq_make(targets, timeout=3000):
     """full .vo build of the given targets (relative to coq/); returns (ok, log)"""
